@@ -266,6 +266,32 @@ fn raw_d(ctx: &mut Ctx) {
             }
         }
     }
+    // every kind: n white men of kind kw from a2 upwards, m black men of kind kb from h7 downwards
+    // (pawns stay off the first and last rank); 15 + king = 16 is the limit, whatever the kind
+    for &kw in &[P, N, B, R, Q] {
+        for &kb in &[P, N, B, R, Q] {
+            if kw == N && kb == N {
+                continue; // done above
+            }
+            for n in 0..=17usize {
+                for m in 0..=17usize {
+                    for stm in 0..2u8 {
+                        let mut b = [EMPTY; 64];
+                        b[sq(4, 0)] = K;
+                        b[sq(4, 7)] = K | BLACK;
+                        for i in 0..n {
+                            b[8 + i] = kw;
+                        }
+                        for i in 0..m {
+                            b[55 - i] = kb | BLACK;
+                        }
+                        let r = RawPos { b, stm, cr: [false; 4], eps: None, hmc: 0, fmn: 1 };
+                        check_raw(ctx, &r);
+                    }
+                }
+            }
+        }
+    }
     // the same with pawns and queens mixed in (15 pawns/queens + king = 16, one more = 17)
     for extra in 0..3usize {
         for stm in 0..2u8 {
@@ -301,7 +327,7 @@ pub fn run(run: &mut Run) {
     run.par_shards(&format!("RAW(a) boards with <= {} occupied squares, 12 kinds, 2 sides, rights/mark variants", max), 64, |ctx, sh| raw_a(ctx, sh, max));
     run.par_shards("RAW(b) home squares x {.,K,R,k,r,N} x 16 rights x 2 sides", 6, |ctx, sh| raw_b(ctx, sh));
     run.par_shards("RAW(c) en-passant mark on every square x neighbourhood", 64, |ctx, sh| raw_c(ctx, sh));
-    run.seq("RAW(d) men counts around the sixteen-men limit", |ctx| raw_d(ctx));
+    run.seq("RAW(d) men counts 0..17 of every kind per side (sixteen-men limit, more than eight pawns, many promoted pieces)", |ctx| raw_d(ctx));
     // every valid position of the standard universes goes through acceptance + idempotence too
     let sel = Sel { m3: true, ep: Some(false), castle: Some(false), promo: Some(false), reach: Some(3), counters: true, multicheck: Some(if run.thorough() { 3 } else { 1 }), ..Default::default() };
     // here a model-valid position refused by owlchess is a violation, not a skip
